@@ -895,4 +895,55 @@ example :
     ∧ edgeLabelBy tab ⟨0, 1, .dashed⟩ = [0, 2] ∧ compTypes tab 0 = [(1, [0, 2]), (2, [1])] := by
   refine ⟨by decide +kernel, by decide, by decide, by decide, by decide⟩
 
+/-! ## Round 6: the labels of procedure nodes (`show_proc_parent`) -/
+
+/-- **With `show_proc_parent` two different procedures never look the same.**  The label of a procedure
+    node (`ProcNode.__init__`) is built from the name of its scope, the name of the type it is bound to
+    and its own name; for Fortran names (no `:`, no `%`) the label determines all three, so two nodes
+    of a picture, two rows of the table fall-back, that show the same text are the same procedure
+    (quantifier "x show_proc_parent": what the option adds is exactly what tells `run` of module `a`
+    from `run` of module `b`). -/
+theorem proc_label_injective (i j : LabelIn) (hi : i.clean = true) (hj : j.clean = true)
+    (h : procLabel true i = procLabel true j) : i = j := by
+  rw [← decodeLabel_procLabel i hi, ← decodeLabel_procLabel j hj, h]
+
+/-- what the option adds: the scope's name and `::` in front of the label without it ... -/
+theorem proc_label_shows_parent (i : LabelIn) (p : Str) (hp : i.parent = some p) :
+    procLabel true i = p ++ [':', ':'] ++ procLabel false i := by
+  simp [procLabel, parentLabel, hp]
+
+/-- ... nothing for a procedure that has no scope (known by name only), and the label always ends with
+    the procedure's own name. -/
+theorem proc_label_shows_name (sp : Bool) (i : LabelIn) :
+    (i.parent = none → procLabel sp i = procLabel false i)
+      ∧ ∃ pre, procLabel sp i = pre ++ i.name := by
+  constructor
+  · intro hp; simp [procLabel, parentLabel, hp]
+  · exact ⟨parentLabel sp i ++ bindingLabel i, by simp [procLabel]⟩
+
+/-- **Without the option (partial)**: the label still determines the type a procedure is bound to and its
+    name - but not its scope: excluded is exactly the case of two procedures of the same name (and type) in
+    different scopes, see `proc_label_ambiguous_witness`. -/
+theorem proc_label_plain_partial (i j : LabelIn) (hi : i.clean = true) (hj : j.clean = true)
+    (h : procLabel false i = procLabel false j) : i.binder = j.binder ∧ i.name = j.name := by
+  have e : ∀ k : LabelIn, procLabel false k = procLabel true { k with parent := none } := by
+    intro k; cases hk : k.parent <;> simp [procLabel, parentLabel, bindingLabel, hk]
+  have c : ∀ k : LabelIn, k.clean = true → ({ k with parent := none } : LabelIn).clean = true := by
+    intro k hk
+    simp only [LabelIn.clean, Bool.and_eq_true] at hk ⊢
+    exact ⟨⟨hk.1.1, by simp⟩, hk.2⟩
+  rw [e i, e j] at h
+  have := proc_label_injective _ _ (c i hi) (c j hj) h
+  simp only [LabelIn.mk.injEq] at this
+  exact ⟨this.2.2, this.1⟩
+
+/-- Witness: `run` of module `a` and `run` of module `b` carry the same label unless `show_proc_parent`
+    is on - so nothing that handles the nodes of a graph may identify them by their label. -/
+theorem proc_label_ambiguous_witness :
+    let i : LabelIn := { name := "run".toList, parent := some "a".toList }
+    let j : LabelIn := { name := "run".toList, parent := some "b".toList }
+    i ≠ j ∧ procLabel false i = procLabel false j ∧ procLabel true i ≠ procLabel true j
+      ∧ procLabel true { name := "go".toList, parent := some "m".toList, binder := some "t".toList } = "m::t%go".toList := by
+  decide
+
 end Ford.C13
